@@ -114,13 +114,21 @@ func FlatStream(n int) string {
 	evs := make([]Ev, 0, n+2)
 	evs = append(evs, Ev{Kind: KElem, Local: "r"})
 	for i := 0; i < n; i++ {
-		switch i % 4 {
+		// every kind of event occurs in the flat stream (a builder that recurses on ONE kind of event —
+		// seeded change C10-6: on namespace events — must exhaust the stack here)
+		switch i % 7 {
 		case 0:
 			evs = append(evs, Ev{Kind: KElem, Local: "e"})
 		case 1:
-			evs = append(evs, Ev{Kind: KText, Val: "t"})
+			evs = append(evs, Ev{Kind: KNs, Local: "p", Val: "urn:a"})
 		case 2:
+			evs = append(evs, Ev{Kind: KAttr, Local: "k", Val: "v"})
+		case 3:
+			evs = append(evs, Ev{Kind: KText, Val: "t"})
+		case 4:
 			evs = append(evs, EvClose())
+		case 5:
+			evs = append(evs, Ev{Kind: KPi, Local: "t", Val: "d"})
 		default:
 			evs = append(evs, Ev{Kind: KComment, Val: "c"})
 		}
